@@ -34,6 +34,7 @@ type Obligation struct {
 }
 
 type Engine struct {
+	noInv         []string // parameters of the function being verified that are exempt from type invariants
 	catClosedMemo map[string]bool
 	repo          string
 	fset          *token.FileSet
@@ -230,7 +231,22 @@ func (e *Engine) InstantiateTemplates() {
 		for i := 0; i < named.NumMethods(); i++ {
 			m := named.Method(i)
 			k := contractKey(t.Pkg, t.Recv, m.Name())
-			if _, has := e.cs.Contracts[k]; has {
+			if own, has := e.cs.Contracts[k]; has {
+				if own.UseTemplate && !own.FromTemplate {
+					// the block's clauses first, then the function's own
+					own.Requires = append(append([]*Clause{}, t.Requires...), own.Requires...)
+					own.Ensures = append(append([]*Clause{}, t.Ensures...), own.Ensures...)
+					own.Running = append(append([]*Clause{}, t.Running...), own.Running...)
+					own.Modifies = append(append([]ast.Expr{}, t.Modifies...), own.Modifies...)
+					own.ModText = append(append([]string{}, t.ModText...), own.ModText...)
+					own.ModAll = own.ModAll || t.ModAll
+					for n, ls := range t.Loops {
+						if own.Loops[n] == nil {
+							own.Loops[n] = ls
+						}
+					}
+					own.FromTemplate = true
+				}
 				continue
 			}
 			c := *t
